@@ -21,6 +21,8 @@ func c10Clients() []ClientSpec {
 		mk(ClientSpec{ID: "oidc-basic", Secret: "oidc-basic-secret", OIDC: true, AuthMethod: "client_secret_basic", Rotated: []string{"oidc-basic-old"}}),
 		mk(ClientSpec{ID: "oidc-post", Secret: "oidc-post-secret", OIDC: true, AuthMethod: "client_secret_post"}),
 		mk(ClientSpec{ID: "oidc-none", Public: true, OIDC: true, AuthMethod: "none"}),
+		// registered with a secret (confidential) but with the method "none": no presentation proves anything, nothing is valid
+		mk(ClientSpec{ID: "oidc-none-conf", Secret: "oidc-none-conf-secret", OIDC: true, AuthMethod: "none"}),
 		mk(ClientSpec{ID: "oidc-pub-basic", Public: true, OIDC: true, AuthMethod: "client_secret_basic"}),
 		mk(ClientSpec{ID: "oidc-jwt", OIDC: true, AuthMethod: "private_key_jwt", KeyName: "rsa2", AuthAlg: "RS256"}),
 		mk(ClientSpec{ID: "oidc-jwt-ec", OIDC: true, AuthMethod: "private_key_jwt", KeyName: "ec_p256_0", AuthAlg: "ES256"}),
